@@ -1,6 +1,6 @@
 (* C10 — witnesses: the defects of the unrepaired tree (on the `*_pinned` model) and satisfiability of the theorems' hypotheses. *)
 From Coq Require Import ZArith List Bool Lia.
-From Verif Require Import Sections.SectionModel Sections.SectionProofs Sections.SectionTable Sections.CopyProofs Sections.ShrinkProofs Sections.JitReloc.
+From Verif Require Import Sections.SectionModel Sections.SectionProofs Sections.SectionTable Sections.CopyProofs Sections.ShrinkProofs Sections.JitReloc Reloc.RelocModel.
 Import ListNotations.
 Local Open Scope Z_scope.
 
@@ -137,3 +137,13 @@ Lemma ex_relocate_abs : exists h2,
   relocate_holder ex_abs (Some 3) [SAbs 0 1 5; SAbs 8 2 0] 4194304 = inl (h2, 8) /\
   map sdata h2 = [ [21; 0; 64; 0; 0; 0; 0; 0; 24; 0; 64; 0; 0; 0; 0; 0]; [1; 2; 3; 4; 5]; []; [] ].
 Proof. eexists. split; [vm_compute; reflexivity|]. vm_compute. reflexivity. Qed.
+
+(* the other two site kinds on the same holder as ex_abs (text 16 bytes at 0, section 1 at 16 with 5 bytes, empty section 2 at 24, table at 24):
+   embed_label_delta (section 2 + 0) - (section 1 + 5) = 24 - 21 = 3 as 4 bytes at 0; jz 0x401000 at 4 from base 0x400000:
+   0F 84 rel32 with rel32 = 0x401000 - (0x400000 + 10) = 0xFF6; and a jz that cannot reach its target is refused *)
+Lemma ex_relocate_expr_rel : exists h2,
+  relocate_holder ex_abs (Some 3) [SExpr 0 2 0 1 5 4; SRel 4 4198400] 4194304 = inl (h2, 8) /\
+  firstn 10 (hd [] (map sdata h2)) = [3; 0; 0; 0; 0; 0; 246; 15; 0; 0] /\
+  relocate_holder ex_abs (Some 3) [SRel 4 1311768467463790320] 4194304 = inr ROutOfRange /\
+  relocate_holder ex_abs (Some 3) [SRel 12 4198400] 4194304 = inr RInvalidEntry.
+Proof. eexists. split; [vm_compute; reflexivity|]. repeat split; vm_compute; reflexivity. Qed.
